@@ -105,6 +105,10 @@ func (m singleModel) Initialise() (error, TimeSteppingModel, data.ND3Float64, da
 		inputs.Apply([]int{0, i, 0}, 2, 1, thisInput)
 	}
 
+	if inputs == nil {
+		return errors.New("No inputs provided: cannot determine the length of the simulation"), nil, nil, nil, warnings
+	}
+
 	return nil, model, inputs, states, warnings
 }
 
